@@ -718,3 +718,85 @@ Proof.
       rewrite Ep in T. cbn in T. unfold rank, d2. rewrite T, Ep.
       assert (lockdist s' = lockdist s) as -> by (unfold lockdist; rewrite Er; reflexivity). larith.
 Qed.
+
+Lemma progress_ph0 cfg s : ainv s -> cinv s -> pinv Ph0 s ->
+  synchronizedEpochs (s_pbl s) < length (epochSeeds (s_pbl s)) -> progresses cfg Ph0 s.
+Proof.
+  intros A C P Hpend. pose proof A as [[II _] [[_ Hheld] _]]. cbn [pinv] in P.
+  assert (p_final s = false) as Hnf.
+  { destruct (p_final s) eqn:E; [|reflexivity]. rewrite (C E) in P. discriminate. }
+  unfold p_final in Hnf. unfold progresses, choose.
+  assert (forall s' : sys, s_r s' = s_r s -> lockdist s' = lockdist s) as Hld.
+  { intros s' Er. unfold lockdist. rewrite Er. reflexivity. }
+  destruct (s_p s) as [|ch|ch|dl|k|k f|k f|k f dl|k w|] eqn:Ep.
+  - (* PStart *)
+    destruct (tp_go cfg Ph0 s ok0 II) as [s' [Hr [Hsc [Er T]]]]; [unfold tp_cond; rewrite Ep; exact I|].
+    exists s'. split; [exact Hr|]. rewrite Hsc. unfold ph_next, sync_starts. rewrite act_tp, Ep.
+    rewrite Ep in T. destruct T as [ch T]. unfold rank, d0. rewrite T, Ep. cbn. lia.
+  - (* PSelect *)
+    destruct (tp_go cfg Ph0 s ok0 II) as [s' [Hr [Hsc [Er T]]]]; [unfold tp_cond; rewrite Ep; exact I|].
+    exists s'. split; [exact Hr|]. rewrite Hsc. unfold ph_next, sync_starts. rewrite act_tp, Ep.
+    rewrite Ep in T. unfold rank, d0. destruct T as [[dl T]|T]; rewrite T, Ep; cbn; lia.
+  - (* PIdle *)
+    assert (is_closed (heap (s_pbl s)) ch = true) as Hc.
+    { destruct (Hheld ch (or_intror Ep)) as [->|Hc]; [|exact Hc].
+      apply (inv_wakeup_put _ (proj1 II) Hpend). }
+    destruct (tp_go cfg Ph0 s ok0 II) as [s' [Hr [Hsc [Er T]]]]; [unfold tp_cond; rewrite Ep; exact Hc|].
+    exists s'. split; [exact Hr|]. rewrite Hsc. unfold ph_next, sync_starts. rewrite act_tp, Ep.
+    rewrite Ep in T. unfold rank, d0. destruct T as [T|[dl T]]; rewrite T, Ep; cbn; lia.
+  - (* PTimer *)
+    destruct (tp_go_tick cfg Ph0 s (mkAns true dl) dl II) as [s' [Hr [Hsc [Er T]]]].
+    { unfold tp_cond. cbn. rewrite Ep. cbn. split; [reflexivity|lia]. }
+    exists s'. split; [exact Hr|]. rewrite Hsc. unfold ph_next, sync_starts. rewrite act_tp, Ep.
+    rewrite Ep in T. unfold rank, d0. destruct T as [T|T]; rewrite T, Ep; cbn; lia.
+  - (* PNotify *)
+    destruct (tp_go cfg Ph0 s ok0 II) as [s' [Hr [Hsc [Er T]]]]; [unfold tp_cond; rewrite Ep; exact I|].
+    exists s'. split; [exact Hr|]. rewrite Hsc. unfold ph_next, sync_starts. rewrite act_tp, Ep.
+    rewrite Ep in T. cbn in T. unfold rank, d0, d1. rewrite T, Ep. cbn. lia.
+  - (* PSyncing *)
+    destruct (tp_go cfg Ph0 s ok0 II) as [s' [Hr [Hsc [Er T]]]]; [unfold tp_cond; rewrite Ep; exact I|].
+    exists s'. split; [exact Hr|]. rewrite Hsc. unfold ph_next, sync_starts. rewrite act_tp, Ep.
+    rewrite Ep in T. destruct T as [[_ T]|[Hok _]]; [|discriminate]. unfold rank, d0. rewrite T, Ep, (Hld _ Er). larith.
+  - (* PSyncRet *)
+    destruct (tp_go cfg Ph0 s ok0 II) as [s' [Hr [Hsc [Er T]]]]; [unfold tp_cond; rewrite Ep; exact I|].
+    exists s'. split; [exact Hr|]. rewrite Hsc. unfold ph_next, sync_starts. rewrite act_tp, Ep.
+    rewrite Ep in T. cbn in T. unfold rank, d0, d1. rewrite T, Ep, ?(Hld _ Er).
+    destruct (negb k && negb f); rewrite ?(Hld _ Er); larith.
+  - (* PSyncSleep *)
+    destruct (tp_go_tick cfg Ph0 s ok0 dl II) as [s' [Hr [Hsc [Er T]]]].
+    { unfold tp_cond. cbn. rewrite Ep. lia. }
+    exists s'. split; [exact Hr|]. rewrite Hsc. unfold ph_next, sync_starts. rewrite act_tp, Ep.
+    rewrite Ep in T. cbn in T. unfold rank, d0. rewrite T, Ep, (Hld _ Er). larith.
+  - destruct w.
+    + (* WAcquire *)
+      destruct (lock_cases s k A Ep) as [[Hl Hst]|[Hl Hh]].
+      * rewrite Hl.
+        destruct (tp_go cfg Ph0 s ok0 II) as [s' [Hr [Hsc [Er T]]]]; [unfold tp_cond; rewrite Ep; exact Hst|].
+        exists s'. split; [exact Hr|]. rewrite Hsc. unfold ph_next, sync_starts. rewrite act_tp, Ep. cbn [wact].
+        rewrite Ep in T. cbn in T. unfold rank, d0. rewrite T, Ep. cbn. lia.
+      * destruct (lockdist s) as [|n] eqn:El; [lia|].
+        destruct (tr_go cfg Ph0 s ok0 II Hh) as [s' [Hr [Hsc [Ep' T]]]].
+        exists s'. split; [exact Hr|]. rewrite Hsc. pose proof (lockdist_r_succ _ _ Hh T) as Hld'.
+        assert (sync_starts s (EStep TR ok0) = false) as Hss.
+        { unfold sync_starts. rewrite act_tr. destruct (s_r s) as [| |[]]; reflexivity. }
+        unfold ph_next. rewrite Hss. unfold rank, d0. rewrite Ep', Ep, El. cbn [length]. lia.
+    + (* WGetState *)
+      destruct (tp_go cfg Ph0 s ok0 II) as [s' [Hr [Hsc [Er T]]]]; [unfold tp_cond; rewrite Ep; exact I|].
+      exists s'. split; [exact Hr|]. rewrite Hsc. unfold ph_next, sync_starts. rewrite act_tp, Ep. cbn [wact].
+      rewrite Ep in T. cbn in T. destruct T as [st T]. unfold rank, d0. rewrite T, Ep. cbn. lia.
+    + (* WWriting *)
+      destruct (tp_go cfg Ph0 s ok0 II) as [s' [Hr [Hsc [Er T]]]]; [unfold tp_cond; rewrite Ep; exact I|].
+      exists s'. split; [exact Hr|]. rewrite Hsc. unfold ph_next, sync_starts. rewrite act_tp, Ep. cbn [wact].
+      rewrite Ep in T. cbn in T. destruct T as [[_ T]|[Hok _]]; [|discriminate].
+      unfold rank, d0. rewrite T, Ep. cbn. lia.
+    + (* WWritten *)
+      destruct (tp_go cfg Ph0 s ok0 II) as [s' [Hr [Hsc [Er T]]]]; [unfold tp_cond; rewrite Ep; exact I|].
+      exists s'. split; [exact Hr|]. rewrite Hsc. unfold ph_next, sync_starts. rewrite act_tp, Ep. cbn [wact].
+      rewrite Ep in T. cbn in T. unfold rank, d0. rewrite T, Ep. destruct k; cbn; lia.
+    + (* WSleep *)
+      destruct (tp_go_tick cfg Ph0 s ok0 deadline II) as [s' [Hr [Hsc [Er T]]]].
+      { unfold tp_cond. cbn. rewrite Ep. lia. }
+      exists s'. split; [exact Hr|]. rewrite Hsc. unfold ph_next, sync_starts. rewrite act_tp, Ep. cbn [wact].
+      rewrite Ep in T. cbn in T. unfold rank, d0. rewrite T, Ep, (Hld _ Er). larith.
+  - discriminate.
+Qed.
